@@ -52,4 +52,15 @@ example :
     c'.s2c = [(7, 100000)] ∧ c'.world = [(100000, { marked := true, comps := [(0, 5)], hist := some 3 })] ∧ c'.next = 0 := by
   decide
 
+/-- Known finding F21, machine-checked on the client model (replays: `findings/F21.trace`,
+`findings/F21-marker.trace`): an update message with MAPPINGS [7 ↦ p], DESPAWNS [7] and
+CHANGES [7] — what the server sends when a despawn was queued for an entity the client was never
+sent — maps 7 to the pre-spawned entity, despawns it through that mapping, and then spawns a
+fresh entity for 7: the pre-spawned entity is not adopted. -/
+theorem C16_known_finding_F21_witness :
+    let c : Client := { connected := true, world := [(100000, {})] }
+    let c' := applyUpdate c { tick := 3, mappings := [(7, 100000)], despawns := [7], changes := [{ ent := 7, comps := [(0, 5)] }] }
+    c'.s2c = [(7, 0)] ∧ c'.world = [(0, { marked := true, comps := [(0, 5)], hist := some 3 })] := by
+  decide
+
 end Replicon.C16
